@@ -364,6 +364,109 @@ func (l *Lin) build(at ssa.Instruction, extra []edgeCond, seeds []Term) *system 
 		l.axioms(s, s.terms[i], at)
 	}
 	s.close()
+	// difference terms: t = a - b (two non-constant, provably non-negative operands, so the subtraction cannot wrap)
+	// inherits the bounds the system knows for a - b, and t <= a
+	for round := 0; round < 2; round++ {
+		changed := false
+		for i := 0; i < len(s.terms); i++ {
+			t := s.terms[i]
+			if t.K != TVal || t.V == nil {
+				continue
+			}
+			sub, ok := t.V.(*ssa.BinOp)
+			if !ok || sub.Op != token.SUB || !isIntOrLen(sub) {
+				continue
+			}
+			if _, isC := sub.X.(*ssa.Const); isC {
+				continue
+			}
+			if _, isC := sub.Y.(*ssa.Const); isC {
+				continue
+			}
+			at, ao := l.Expr(sub.X)
+			bt, bo := l.Expr(sub.Y)
+			ai, bi, zi := s.id(at), s.id(bt), s.id(Zero)
+			if len(s.terms) > 200 {
+				break
+			}
+			// both operands non-negative: 0 - a <= ao' ...
+			if s.d[zi][ai] >= inf || s.d[zi][ai]-ao > 0 || s.d[zi][bi] >= inf || s.d[zi][bi]-bo > 0 {
+				continue
+			}
+			ti := s.id(t)
+			// (a+ao) - (b+bo) <= u  =>  t <= u
+			if s.d[ai][bi] < inf {
+				if s.add(fact{t, Zero, s.d[ai][bi] + ao - bo, "difference term"}) {
+					changed = true
+				}
+			}
+			// (b+bo) - (a+ao) <= k  =>  t >= -k  =>  0 - t <= k
+			if s.d[bi][ai] < inf {
+				if s.add(fact{Zero, t, s.d[bi][ai] + bo - ao, "difference term"}) {
+					changed = true
+				}
+			}
+			// t <= a + ao
+			if s.add(fact{t, at, ao, "difference term (subtrahend >= 0)"}) {
+				changed = true
+			}
+			_ = ti
+		}
+		if !changed {
+			break
+		}
+		s.close()
+	}
+	// min(a, b, ..) >= the smallest lower bound of its operands; max(..) <= the largest upper bound
+	for i := 0; i < len(s.terms); i++ {
+		t := s.terms[i]
+		if t.K != TVal || t.V == nil {
+			continue
+		}
+		call, ok := t.V.(*ssa.Call)
+		if !ok {
+			continue
+		}
+		name := BuiltinName(&call.Call)
+		if name != "min" && name != "max" {
+			continue
+		}
+		zi := s.id(Zero)
+		bound, have := int64(0), true
+		for n, a := range call.Call.Args {
+			at2, off := l.Expr(a)
+			ai := s.id(at2)
+			var b int64
+			if name == "min" {
+				if s.d[zi][ai] >= inf {
+					have = false
+					break
+				}
+				b = s.d[zi][ai] - off // 0 - a' <= d  =>  a >= off - d ; keep as "0 - a <= b"
+			} else {
+				if s.d[ai][zi] >= inf {
+					have = false
+					break
+				}
+				b = s.d[ai][zi] + off
+			}
+			if n == 0 || b > bound {
+				bound = b
+			}
+		}
+		if !have || len(call.Call.Args) == 0 {
+			continue
+		}
+		changed := false
+		if name == "min" {
+			changed = s.add(fact{Zero, t, bound, "min lower bound"})
+		} else {
+			changed = s.add(fact{t, Zero, bound, "max upper bound"})
+		}
+		if changed {
+			s.close()
+		}
+	}
 	// disequalities: x - y != k together with x - y <= k gives x - y <= k-1 (and symmetrically)
 	for round := 0; round < 3; round++ {
 		changed := false
@@ -567,6 +670,16 @@ func (l *Lin) axioms(s *system, t Term, at ssa.Instruction) {
 				if et.K == TVal && et.V == ssa.Value(v) && eo >= 0 {
 					continue
 				}
+				// phi + x with x intrinsically non-negative (a byte count, a length, an unsigned value)
+				if add, isAdd := e.(*ssa.BinOp); isAdd && add.Op == token.ADD {
+					other := add.Y
+					if add.Y == ssa.Value(v) {
+						other = add.X
+					}
+					if (add.X == ssa.Value(v) || add.Y == ssa.Value(v)) && l.intrinsicNonNeg(other) {
+						continue
+					}
+				}
 				okStep = false
 			}
 			if hasC && okStep {
@@ -603,6 +716,11 @@ func (l *Lin) axioms(s *system, t Term, at ssa.Instruction) {
 			for _, a := range v.Call.Args {
 				at2, off := l.Expr(a)
 				s.add(fact{t, at2, off, "min"})
+			}
+		case BuiltinName(&v.Call) == "max" && t.K == TVal:
+			for _, a := range v.Call.Args {
+				at2, off := l.Expr(a)
+				s.add(fact{at2, t, -off, "max"})
 			}
 		case callee != nil && callee.Name() == "Bytes" && MethodIs(callee, "bytes", "Buffer", "Bytes") && t.K == TLen:
 			if l.Summary != nil && l.Summary.FrameEnd == l.Fn {
@@ -1150,4 +1268,32 @@ func (l *Lin) PredicateFactStrings(call *ssa.Call) []string {
 		}
 	}
 	return out
+}
+
+// intrinsicNonNeg: values that are non-negative by the contract of what produced them.
+func (l *Lin) intrinsicNonNeg(v ssa.Value) bool {
+	if c, ok := constIntOf(v); ok {
+		return c >= 0
+	}
+	if _, ok := l.unsignedMax(v.Type()); ok {
+		return true
+	}
+	switch x := v.(type) {
+	case *ssa.Extract:
+		if call, ok := x.Tuple.(*ssa.Call); ok && x.Index == 0 {
+			callee := StaticCallee(call)
+			if FuncIs(callee, "io", "ReadFull") || FuncIs(callee, "io", "ReadAtLeast") {
+				return true
+			}
+			if call.Call.IsInvoke() && (call.Call.Method.Name() == "Read" || call.Call.Method.Name() == "Write") {
+				return true
+			}
+		}
+	case *ssa.Call:
+		switch BuiltinName(&x.Call) {
+		case "len", "cap", "copy":
+			return true
+		}
+	}
+	return false
 }
